@@ -818,8 +818,13 @@ func processStructProvider(fset *token.FileSet, info *types.Info, call *ast.Call
 			fmt.Errorf(firstArgReqFormat, types.TypeString(structPtr, nil)))
 	}
 
-	stExpr := call.Args[0].(*ast.CallExpr)
-	typeName := qualifiedIdentObject(info, stExpr.Args[0]) // should be either an identifier or selector
+	named, ok := structPtr.Elem().(*types.Named)
+	if !ok || named.TypeArgs().Len() > 0 {
+		// The generated code spells the struct by its name.
+		return nil, notePosition(fset.Position(call.Pos()),
+			fmt.Errorf(firstArgReqFormat, types.TypeString(structPtr, nil)))
+	}
+	typeName := named.Obj()
 	provider := &Provider{
 		Pkg:      typeName.Pkg(),
 		Name:     typeName.Name(),
